@@ -996,6 +996,7 @@ def defaultdict_get(eng, fr, kv, node):
 
 def setitem(eng, base, idx, value, node, frame):
     run = eng.run
+    run.stores_checked += 1
     base = eng.to_tv(base)
     fr = run.fresh_of(base.t) if base.sort == "val" else None
     if fr is None:
@@ -1662,6 +1663,8 @@ def builtin_method(eng, recv, name, args, kwargs, node, frame):
             return builtin_method(eng, TV(S.iv(t), "int"), name, args, kwargs, node, frame)
     mutators = {"append", "extend", "insert", "pop", "remove", "clear", "sort", "reverse", "update", "setdefault", "popitem",
                 "add", "discard", "appendleft", "popleft", "__setitem__"}
+    if name in mutators:
+        run.stores_checked += 1
     if fr is None:
         if name in mutators:
             if run.container_allowed(t):
